@@ -91,6 +91,21 @@ def matrix():
         first = imps[1:].split(":")[0].strip("\"")
         cases.append((nm, "meta:\n  imports: %s\n  functions: {fn: \"%s.Fn\"}\nparameters: {p: \"%%fn()%%\"}\nservices:\n  s: {constructor: \"%s.New\", type: \"*%s/sub.T\", arguments: [\"!value %s.V\"]}\n  v: {value: \"%s.Value\"}\ndecorators:\n  - {tag: t, decorator: \"%s.Decorate\"}\n"
                       % (imps, first, first, first, first, first, first)))
+    # acyclic graphs with exponentially many paths, long chains and wide fan-out: bounded size, no cycle at all.  Small instances go
+    # through the model as well; the big ones ("big:" - the model evaluated inside Coq is too slow for them) through the real command only
+    for pre, L, CH, FAN in (("", 6, 40, 60), ("big:", 28, 1500, 1500)):
+        lad = "".join("  a%d: {constructor: N, arguments: [\"@a%d\", \"@b%d\"]}\n  b%d: {constructor: N, arguments: [\"@a%d\", \"@b%d\"]}\n" % (i, i + 1, i + 1, i, i + 1, i + 1) for i in range(L))
+        cases.append((pre + "ladder-services", "services:\n" + lad + "  a%d: {value: V}\n  b%d: {value: V}\n" % (L, L)))
+        cases.append((pre + "ladder-params", "parameters:\n" + "".join("  a%d: \"%%a%d%%%%b%d%%\"\n  b%d: \"%%a%d%% %%b%d%%\"\n" % (i, i + 1, i + 1, i, i + 1, i + 1) for i in range(L)) + "  a%d: 1\n  b%d: x\n" % (L, L)))
+        cases.append((pre + "ladder-tagged", "services:\n" + "".join("  a%d: {constructor: N, tags: [t%d], arguments: [\"!tagged t%d\", \"!tagged t%d\"]}\n  b%d: {constructor: N, tags: [t%d], arguments: [\"!tagged t%d\"]}\n" % (i, i, i + 1, i + 1, i, i, i + 1) for i in range(L)) + "  z: {value: V, tags: [t%d]}\n" % L))
+        cases.append((pre + "ladder-one-cycle", "services:\n" + lad + "  a%d: {constructor: N, arguments: [\"@a%d\"]}\n  b%d: {value: V}\n" % (L, L, L)))
+        cases.append((pre + "chain-services", "services:\n" + "".join("  s%d: {constructor: N, arguments: [\"@s%d\"]}\n" % (i, i + 1) for i in range(CH)) + "  s%d: {value: V}\n" % CH))
+        cases.append((pre + "chain-params", "parameters:\n" + "".join("  p%d: \"%%p%d%%\"\n" % (i, i + 1) for i in range(CH)) + "  p%d: 1\n" % CH))
+        cases.append((pre + "chain-scopes", "services:\n" + "".join("  s%d: {constructor: N, arguments: [\"@s%d\"]}\n" % (i, i + 1) for i in range(CH // 2)) + "  s%d: {value: V, scope: contextual}\n  top: {constructor: N, scope: shared, arguments: [\"@s0\"]}\n" % (CH // 2)))
+        cases.append((pre + "fan-out", "services:\n  hub: {constructor: N, arguments: [%s]}\n" % ", ".join("\"@l%d\"" % i for i in range(FAN)) + "".join("  l%d: {value: V}\n" % i for i in range(FAN))))
+        cases.append((pre + "fan-in", "services:\n  leaf: {value: V}\n" + "".join("  u%d: {constructor: N, arguments: [\"@leaf\", \"%%p%%\"]}\n" % i for i in range(FAN)) + "parameters: {p: 1}\n"))
+        cases.append((pre + "many-tokens", "parameters:\n  p: \"%s\"\n  q: 1\n" % ("%q% " * (2 * FAN))))
+        cases.append((pre + "many-small-cycles", "services:\n" + "".join("  x%d: {constructor: N, arguments: [\"@y%d\"]}\n  y%d: {constructor: N, arguments: [\"@x%d\"]}\n" % (i, i, i, i) for i in range(L + 2))))
     cases.append(("param-self", "parameters: {p: \"%p%\"}\n"))
     cases.append(("param-mutual", "parameters: {p: \"%q%\", q: \"x%p%\"}\nservices: {s: {constructor: N, arguments: [\"%p%\"]}}\n"))
     cases.append(("service-self", "services: {s: {constructor: N, arguments: [\"@s\"], tags: [t], fields: {F: \"!tagged t\"}}}\n"))
@@ -142,6 +157,57 @@ def run(tier, seed, replay):
         sp = common.mk_spec(len(specs), files, patterns=pats)
         sp["what"] = ["layout:" + name]
         specs.append(sp)
+    # type confusion across files: a later file gives a position another node kind than the earlier file did (merging meets both)
+    import itertools as _it
+    for pos in ("pkg", "imports", "functions", "params", "services", "decorators", "service", "args", "calls", "fields", "tags", "scope", "getter", "dmg", "version"):
+        for kn in ("int", "null", "seq", "map", "emptymap", "str", "alias", "nested"):
+            for order in (0, 1):
+                pair = [expand(TEMPLATE, {}), expand(TEMPLATE, {pos: KINDS[kn]})]
+                sp = common.mk_spec(len(specs), pair[::-1] if order else pair)
+                sp["what"] = ["two-files:%s=%s/%d" % (pos, kn, order)]
+                specs.append(sp)
+    # pairs of positions set to null / left out together
+    ABSENT = "@@ABSENT@@"
+    for p1, p2 in _it.combinations(["pkg", "imports", "functions", "params", "services", "decorators", "version", "dmg"], 2):
+        for v1, v2 in (("~", "~"), ("~", ABSENT), (ABSENT, ABSENT)):
+            text = expand(TEMPLATE, {p1: v1, p2: v2})
+            text = "\n".join(l for l in text.split("\n") if ABSENT not in l)
+            sp = common.mk_spec(len(specs), [text])
+            sp["what"] = ["pair-null:%s,%s" % (p1, p2)]
+            specs.append(sp)
+    for p1, p2 in _it.combinations(["getter", "mg", "type", "ctor", "args", "calls", "fields", "tags", "scope", "todo"], 2):
+        text = expand(TEMPLATE, {p1: "~", p2: "~"})
+        sp = common.mk_spec(len(specs), [text])
+        sp["what"] = ["pair-null-service:%s,%s" % (p1, p2)]
+        specs.append(sp)
+    # every subset of the boolean flags, repeated flags and explicit values, on an accepted, a rejected and an unparsable configuration,
+    # with and without something at the output path
+    FLG = ["--quiet", "--stub", "--ignore-missing-params", "--ignore-missing-services"]
+    texts = [("ok", expand(TEMPLATE, {})), ("rejected", expand(TEMPLATE, {"args": "[\"%nope%\", \"@nope\"]"})), ("unparsable", "services: [")]
+    for (tn, text), k_ in _it.product(texts, range(16)):
+        extra = [f for j, f in enumerate(FLG) if k_ >> j & 1]
+        for pre in (False, True):
+            if pre and k_ % 5:
+                continue
+            sp = common.mk_spec(len(specs), [text] + ([{"path": "out.go", "content": "OLD\n"}] if pre else []),
+                                flags={n_: True for j, n_ in enumerate(["quiet", "stub", "ignore_params", "ignore_services"]) if k_ >> j & 1})
+            sp["what"] = ["flags:%s:%s%s" % (tn, "".join(f[2] for f in extra) or "-", "/pre" if pre else "")]
+            specs.append(sp)
+    for extra in (["--stub", "--stub"], ["--quiet=false", "--quiet"], ["--stub=maybe"], ["--nope"], ["-q"], ["--", "x"], ["--stub=", "--quiet"], ["--ignore-missing-params=2"], ["extra-positional"]):
+        sp = common.mk_spec(len(specs), [expand(TEMPLATE, {})], flags={})
+        sp["extra_args"] = extra
+        sp["what"] = ["argv:" + " ".join(extra)]
+        specs.append(sp)
+    # glob patterns: metacharacters, escapes, classes, very long and non-UTF-8 patterns
+    GL = ["*", "**", "**/*.yaml", "conf/**", "conf/?.yaml", "conf/[a-c].yaml", "conf/[^a].yaml", "conf/[!a].yaml", "conf/[a-].yaml", "conf/[]a].yaml", "conf/[", "conf/]", "conf/\\", "conf/\\*",
+          "conf/{a,b}.yaml", "conf/a.yaml/", "/", "//", "conf//a.yaml", "./conf/./a.yaml", "conf/a.yaml/..", "~", "~/x", "$HOME/*", "conf/*.ya?l", "conf/*" * 30, "x" * 5000, "conf/\udcff*", "\x00", "conf/a.yaml\x00b", " ", "conf/ *", "-", "--", "-o"]
+    for g_ in GL:
+        sp = common.mk_spec(len(specs), [F("conf/a.yaml"), F("conf/b.yaml", "parameters: {q: 2}\n"), F("conf/[.yaml", "parameters: {r: 3}\n")], patterns=[g_])
+        sp["what"] = ["glob:" + g_[:40]]
+        specs.append(sp)
+        sp = common.mk_spec(len(specs), [F("conf/a.yaml")], patterns=["conf/a.yaml", g_])
+        sp["what"] = ["glob2:" + g_[:40]]
+        specs.append(sp)
     if replay:
         rp = json.load(open(replay))["replay"]
         specs = [dict(rp, id="0", dump=True, build_info="bi")]
@@ -150,7 +216,15 @@ def run(tier, seed, replay):
     obs = build.gx_run(tooldir, specs, timeout=900)
     build.log("matrix real %.1fs" % (_t.time() - _t0))
     common.real_sanity(out, specs, obs, "C12")
-    common.correspondence(out, env, specs, obs, "C12 type-confusion matrix")
+    small = [k for k, sp in enumerate(specs) if not sp["what"][0].startswith("big:") and not sp.get("extra_args")]   # (the model takes the decoded flags, not an argv)
+    common.correspondence(out, env, [specs[k] for k in small], [obs[k] for k in small], "C12 type-confusion matrix")
+    # the big instances: expected verdicts (the graphs are acyclic unless the name says otherwise), each within the watchdog's time
+    for sp, ob in zip(specs, obs):
+        nm = sp["what"][0]
+        if nm.startswith("big:") and not ob.get("skipped") and not ob.get("hang") and not ob.get("crashed") and not ob.get("panic"):
+            want = 1 if nm.endswith(("one-cycle", "chain-scopes", "small-cycles")) else 0
+            if ob.get("exit") != want:
+                out.violation("big-instance-verdict:" + nm, "%s: exit %s, expected %d: %s" % (nm, ob.get("exit"), want, (ob.get("errors") or [])[:2]), common.slim(sp, ob))
     kinds = {}
     nontrivial = set()
     for sp, ob in zip(specs, obs):
@@ -159,8 +233,10 @@ def run(tier, seed, replay):
         ex = ob.get("exit")
         if ex not in (0, 1) and not ob.get("panic") and not ob.get("crashed"):
             out.violation("exit-range:" + sp["what"][0], "exit status outside {0,1}", common.slim(sp, ob))
-        if ex == 1 and ob.get("out_after", {}).get("exists"):
+        if ex == 1 and ob.get("out_after", {}).get("exists") and not (ob.get("out_before") or {}).get("exists"):
             out.violation("failure-touches-output:" + sp["what"][0], "failing run created the output", common.slim(sp, ob))
+        if ex == 1 and (ob.get("out_before") or {}).get("exists") and (ob["out_after"].get("hash"), ob["out_after"].get("size")) != (ob["out_before"].get("hash"), ob["out_before"].get("size")):
+            out.violation("failure-touches-output:" + sp["what"][0], "failing run changed the existing output file", common.slim(sp, ob))
         cls = "accepted" if ex == 0 else ((ob.get("errors") or ["?"])[0].split(":")[0])
         kinds[cls] = kinds.get(cls, 0) + 1
         nontrivial.add(json.dumps(ob.get("errors"))[:300])
